@@ -64,12 +64,14 @@ Init ==
     /\ result = [t \in 1..Len(targets) |-> -9]          \* -9: no result yet
     /\ finished = {} /\ printed = <<>> /\ out = <<"open">> /\ rank = 0 /\ exit = -2 /\ pc = "run"
 
-\* a worker thread takes the head of the queue (threads are spawned lazily: lower-numbered idle threads first
-\* would be one legal pool policy; any idle thread may take it, which over-approximates every pool)
-Take(th) ==
-    /\ pc = "run" /\ queue # <<>> /\ ~worker[th].busy
-    /\ worker' = [worker EXCEPT ![th] = [busy |-> TRUE, t |-> Head(queue), scanned |-> FALSE]]
-    /\ queue' = Tail(queue)
+\* a worker thread takes a queued target.  The pool hands targets out in list order, but the moment a worker *starts* on one
+\* (what can be observed) is not the moment it was handed out, so the model lets any queued target be started next; nothing
+\* in C07 / C08 depends on the order.
+Remove(q, t) == SelectSeq(q, LAMBDA x : x # t)
+Take(th, t) ==
+    /\ pc = "run" /\ ~worker[th].busy /\ \E i \in 1..Len(queue) : queue[i] = t
+    /\ worker' = [worker EXCEPT ![th] = [busy |-> TRUE, t |-> t, scanned |-> FALSE]]
+    /\ queue' = Remove(queue, t)
     /\ UNCHANGED <<targets, threads, tdb, cfgShared, view, result, finished, printed, out, rank, exit, pc>>
 
 \* the scan: the thread's table copy is created if absent, whatever it already holds is what the report of this
@@ -114,7 +116,7 @@ Exit ==
     /\ exit' = rank /\ pc' = "done"
     /\ UNCHANGED <<targets, threads, queue, worker, tdb, cfgShared, view, result, finished, printed, rank>>
 
-Next == (\E th \in 1..threads : Take(th) \/ Scan(th) \/ Finish(th)) \/ (\E t \in 1..N : Collect(t)) \/ Exit
+Next == (\E th \in 1..threads : (\E t \in 1..N : Take(th, t)) \/ Scan(th) \/ Finish(th)) \/ (\E t \in 1..N : Collect(t)) \/ Exit
 Spec == Init /\ [][Next]_vars
 FairSpec == Spec /\ WF_vars(Next)
 
